@@ -61,17 +61,31 @@ def _regex(ctx: Any, name: str) -> RegexConst:
     return v
 
 
+_UNIVERSE = 0x3000  # code points enumerated for categories and negated classes
+
+
 def _charset(items: Any) -> Set[int]:
     import re._constants as C  # type: ignore[import-not-found]
 
     out: Set[int] = set()
+    negate = False
     for op, av in items:
         if op is C.LITERAL:
             out.add(av)
         elif op is C.RANGE:
             out.update(range(av[0], av[1] + 1))
-        elif op is C.CATEGORY or op is C.NEGATE:
-            raise AnalysisError('character class uses a category or negation')
+        elif op is C.CATEGORY:
+            # \w, \d, \s ... on a str pattern are Unicode categories: enumerate them over the first planes so that the
+            # comparison with the documented ASCII set shows what else is admitted
+            esc = {C.CATEGORY_WORD: r'\w', C.CATEGORY_NOT_WORD: r'\W', C.CATEGORY_DIGIT: r'\d', C.CATEGORY_NOT_DIGIT: r'\D', C.CATEGORY_SPACE: r'\s', C.CATEGORY_NOT_SPACE: r'\S'}.get(av)
+            if esc is None:
+                raise AnalysisError(f'character class uses category {av}')
+            rx = re.compile(esc)
+            out.update(cp for cp in range(0, _UNIVERSE) if rx.fullmatch(chr(cp)))
+        elif op is C.NEGATE:
+            negate = True
+    if negate:
+        out = set(range(0, _UNIVERSE)) - out
     return out
 
 
